@@ -322,7 +322,13 @@ def run(tier):
         for mode in ("static", "spie"):
             bdir = core.cargo_build(template="probe/mem-" + mode, release=True)
             builds[mode + "-release"] = os.path.join(bdir, "memprobe")
-    conformance(chk, tier, builds["debug"])
+    try:
+        conformance(chk, tier, builds["debug"])
+    except (core.ToolError, OSError, subprocess.SubprocessError, ValueError) as e:
+        # the step-level binding is auxiliary evidence (needs ptrace): its failure must not hide the verdict
+        core.log("C08: step-level conformance not available: %s" % str(e)[:300])
+        chk.extra["model_conformance"] = {"error": str(e)[:300]}
+        chk.extra["model_conformance_ok"] = False
     quick = tier == "quick"
     plans = []   # (tag, cmd, expected counts)
     if quick:
